@@ -49,7 +49,13 @@ func newEnv(repo, verif string) (*env, error) {
 	return e, nil
 }
 
-func (e *env) cleanup() { os.RemoveAll(e.scratch) }
+func (e *env) cleanup() {
+	if os.Getenv("SYMGO_KEEP") != "" {
+		fmt.Fprintln(os.Stderr, "scratch kept:", e.scratch)
+		return
+	}
+	os.RemoveAll(e.scratch)
+}
 
 var fnRe = regexp.MustCompile(`(?m)^func (vHarness_\w+|vProbe_\w+)\(`)
 
